@@ -92,6 +92,10 @@ func WriteConfigFile(path string, c *Config) error {
 			req := c.Requirements[name]
 
 			mustQuote := strings.ContainsFunc(name, func(r rune) bool { return !isPlainRune(r) })
+			if name == "" {
+				// A bare key must not be empty.
+				mustQuote = true
+			}
 			if mustQuote {
 				name = encodeValue(name)
 			}
